@@ -19,6 +19,14 @@ def main():
     rep = report.Report(prop, spec)
     rep.count("failed_library_calls_before_the_workload", failed)
     mod.run_shard(spec, rep)
+    if spec.get("only") is None:
+        from . import threads
+
+        if prop in threads.BURSTS:
+            try:
+                threads.BURSTS[prop](rep, spec)
+            except Exception as e:
+                rep.harness_error(f"thread burst: {e!r}", e)
     for k, v in guards.budget_stats().items():
         rep.counters[("max:budget:" if k.startswith("max_") else "budget:") + k] = v
     rep.lines = guards.lines_hit()
